@@ -209,8 +209,23 @@ def run_C15(ctx):
     n = ctx.scale(400, 4000)
     base = gen_cases(ctx, n, 5, ctx.scale(50, 200), big_cache=False, small_cache=True, p_reject=0.1, restarts=2,
                      finals=["F 1", "I", "G", "H", "E", "G", "H"])
+    # bulk: far more entries than the limit become evictable in ONE step (a long chunk is
+    # closed and synced), then one more insert has to bring the cache back under its limit
+    rnd = ctx.rnd
+    bulk = []
+    for j in range(ctx.scale(6, 40)):
+        nrec = rnd.choice([90, 140, 200, 330])
+        cfg = "%d %d %d 1073741824 1 64" % (rnd.choice([0, 1, 4, 16]), rnd.choice([0, 64, 1 << 30]), nrec + 1)
+        ops = []
+        for i in range(nrec - 1):
+            ops.append("A 1 %d %s" % (i, gen.hx(bytes([i & 0xFF]) * rnd.choice([0, 1, 3]))))
+            if rnd.random() < 0.05:
+                ops.append("F 1")
+        ops += ["F 1", "A 1 %d x61" % (nrec - 1), "F 1", "A 1 %d x62" % nrec, "A 1 %d x63" % (nrec + 1), "F 1"]
+        bulk.append("SEQ %s | %s" % (cfg, " ; ".join(gen.sync_ops(ops) + ["G", "H", "E", "G", "H"])))
+        ctx.count("bulk_histories")
     cases = []
-    for c in corpus("C15") + base:
+    for c in corpus("C15") + base + bulk:
         head, ops = c.split("|", 1)
         out = []
         for o in [x.strip() for x in ops.split(";") if x.strip()]:
